@@ -65,6 +65,28 @@ theorem isPrefixOf_iff {a p : Path} : a.isPrefixOf p = true ↔ a <+: p := List.
 def WFDisk (disk : Disk) : Prop :=
   ∀ p e a, get disk p = some e → Ancestor a p → get disk a = some .dir
 
+/-- decidable form of `WFDisk` (used for the concrete instances) -/
+def wfDiskB (disk : Disk) : Bool :=
+  disk.all fun e => (List.range e.1.length).all fun k => k = 0 || get disk (e.1.take k) = some .dir
+
+theorem wfDisk_of_check {disk : Disk} (h : wfDiskB disk = true) : WFDisk disk := by
+  intro p e a hd ⟨h1, h2, h3⟩
+  have hm := get_some_mem hd
+  simp only [wfDiskB, List.all_eq_true] at h
+  have := h (p, e) hm
+  simp only [List.mem_range] at this
+  have hlen : a.length < p.length := by
+    have := h3.length_le
+    rcases Nat.lt_or_eq_of_le this with h | h
+    · exact h
+    · exact absurd (List.IsPrefix.eq_of_length h3 h) h2
+  have h0 : a.length ≠ 0 := by
+    intro e0; exact h1 (List.length_eq_zero_iff.mp e0)
+  have := this a.length hlen
+  simp only [Bool.or_eq_true, decide_eq_true_eq, h0, false_or] at this
+  rw [← List.prefix_iff_eq_take.mp h3] at this
+  exact this
+
 theorem treeSet_get (p q : Path) (v : TreeValue) (t : Tree) :
     get (treeSet p v t) q = if q = p then some v else if q <+: p then none else get t q := by
   unfold treeSet
